@@ -72,7 +72,10 @@ def concurrent_part(ctx, quick):
         jobs = [(p, "c%d" % i, 1, False, 2, ctx.seed) for i, p in enumerate(progs)]
         # line-level preemption (every source line of the cache methods is a yield point)
         step = 7 if quick else 1
-        jobs += [(p, "l%d" % i, 1, True, 2, ctx.seed) for i, p in enumerate(progs) if i % step == 0]
+        # (every program with ONE call per thread - all call pairs x setups x cache kinds - and a
+        # sample of the longer ones in the quick tier)
+        jobs += [(p, "l%d" % i, 1, True, 2, ctx.seed) for i, p in enumerate(progs)
+                 if i % step == 0 or all(len(th) == 1 for th in p["prog"].values())]
         # bytecode-level preemption (a thread can be switched out inside one source line, e.g. between the
         # load and the store of `statistics.hits += 1`): programs made of lookups and counter reads
         def counting(p):
